@@ -8,8 +8,11 @@
      kind       "container" "list" "leaf" "leaflist" "choice" "case"
      presence   container has a presence statement
      typ        "string" "int8" "empty" for leaf / leaf-list, or the same reached through a
-                typedef: "tstring" "tint8" "tempty"; "-" otherwise
-     key        name of the (single) key leaf of a list
+                typedef: "tstring" "tint8" "tempty"; "boolean" (key leaves of the multi-key
+                path shapes only); "-" otherwise
+     key        name of the key leaf of a single-key list ("" for a list with several keys)
+     keys       the key statement of a list: the names of its key leaves in the order of the
+                statement (RFC 6020 7.8.2); <<key>> for a single-key list
      mandatory  leaf / choice
      def        default value of a leaf, default case of a choice, "" = none
      min, max   min-/max-elements of list / leaf-list (max = 0: unbounded)
@@ -19,7 +22,7 @@
 EXTENDS Integers, Sequences, FiniteSets
 
 N(kind, name, kids) ==
-  [kind |-> kind, name |-> name, presence |-> FALSE, typ |-> "-", key |-> "", mandatory |-> FALSE,
+  [kind |-> kind, name |-> name, presence |-> FALSE, typ |-> "-", key |-> "", keys |-> << >>, mandatory |-> FALSE,
    def |-> "", min |-> 0, max |-> 0, uniq |-> << >>, kids |-> kids]
 Leaf(n, t)        == [N("leaf", n, << >>) EXCEPT !.typ = t]
 LeafM(n, t)       == [Leaf(n, t) EXCEPT !.mandatory = TRUE]
@@ -28,7 +31,10 @@ LL(n, t)          == [N("leaflist", n, << >>) EXCEPT !.typ = t]
 LLmm(n, t, mn, mx) == [LL(n, t) EXCEPT !.min = mn, !.max = mx]
 Cont(n, kids)     == N("container", n, kids)
 PCont(n, kids)    == [N("container", n, kids) EXCEPT !.presence = TRUE]
-List(n, key, kids) == [N("list", n, kids) EXCEPT !.key = key]
+List(n, key, kids) == [N("list", n, kids) EXCEPT !.key = key, !.keys = <<key>>]
+\* a list whose key statement names several leaves (in that order); the key leaves may stand
+\* anywhere among kids, in any order
+ListK(n, keys, kids) == [N("list", n, kids) EXCEPT !.key = (IF Len(keys) = 1 THEN keys[1] ELSE ""), !.keys = keys]
 ListX(n, key, mn, mx, uq, kids) == [List(n, key, kids) EXCEPT !.min = mn, !.max = mx, !.uniq = uq]
 Choice(n, cases)  == N("choice", n, cases)
 ChoiceD(n, d, cases) == [Choice(n, cases) EXCEPT !.def = d]
@@ -50,6 +56,11 @@ Visible(kids) ==
 HasVisible(kids, nm) == \E c \in Visible(kids) : c.name = nm
 VisibleNamed(kids, nm) == CHOOSE c \in Visible(kids) : c.name = nm
 
+\* the orders in which k things can stand
+Orders(k) == CASE k = 1 -> << <<1>> >>
+              [] k = 2 -> << <<1, 2>>, <<2, 1>> >>
+              [] k = 3 -> << <<1, 2, 3>>, <<1, 3, 2>>, <<2, 1, 3>>, <<2, 3, 1>>, <<3, 1, 2>>, <<3, 2, 1>> >>
+
 \* every name used in a schema (nodes of every kind)
 RECURSIVE AllNames(_)
 AllNames(kids) == IF kids = << >> THEN {} ELSE {kids[1].name} \cup AllNames(kids[1].kids) \cup AllNames(Tail(kids))
@@ -59,6 +70,8 @@ AllNames(kids) == IF kids = << >> THEN {} ELSE {kids[1].name} \cup AllNames(kids
 \* through a typedef has the value space of its base.  Type empty has exactly one lexical
 \* value, the empty string (RFC 6020 9.11: "no value"): as a path token it may follow the
 \* leaf name, any other token may not.
+\* boolean (RFC 6020 9.5: lexical values "true" and "false") only types key leaves: a third value space,
+\* so that the keys of a list with three keys can all be told apart by one token each.
 BaseType(t) == CASE t = "tstring" -> "string" [] t = "tint8" -> "int8" [] t = "tempty" -> "empty" [] OTHER -> t
 IsEmptyType(t) == BaseType(t) = "empty"
 IntToks == {"5", "7", "-3"}
@@ -66,5 +79,6 @@ TypeAccepts(t, v) ==
   CASE BaseType(t) = "string" -> TRUE
     [] BaseType(t) = "int8"   -> v \in IntToks
     [] BaseType(t) = "empty"  -> v = ""
+    [] BaseType(t) = "boolean" -> v \in {"true", "false"}
     [] OTHER                  -> FALSE
 =============================================================================
